@@ -3,7 +3,9 @@
 use fauntlet::{Font, Hinting, HintingTarget, InstanceOptions, RegularizingPen};
 use serde::{Deserialize, Serialize};
 use skrifa::{outline::pen::PathElement, GlyphId};
+use proptest::strategy::Strategy;
 use vcore::*;
+mod synth;
 
 #[derive(Clone, Debug, Serialize, Deserialize)]
 struct Case {
@@ -272,5 +274,105 @@ fn main() {
         known.push(Case { font: font.to_string(), mode, ppem: p });
     }
     ctx.index_stage("known-discrepancies", Isolation::Threads, known.len() as u64, |i| known[i as usize].clone(), |c, s| test(&fonts, c, s, Some(&agree), false));
+    // generated instructed fonts (valid glyph programs over a broad opcode set; composites with offsets, point anchors,
+    // nesting and scales): reach what the frozen corpus does not use
+    ctx.prop_stage("synthetic", Isolation::Threads, ctx.n(60_000, 600_000), synth::strategy, |f: &synth::SynthFont, s| test_synth(f, s, true));
+    // the two listed composite-offset discrepancies, reproduced on purpose (KNOWN-FINDING lines)
+    ctx.prop_stage("synthetic-known", Isolation::Threads, ctx.n(300, 1000), || synth::strategy().prop_map(|mut f| {
+        for comps in f.composites.iter_mut() {
+            for c in comps.iter_mut() {
+                c.by_points = false;
+                c.scale_kind = 3;
+                if c.offset_mode & 1 == 0 {
+                    c.offset_mode = 1;
+                }
+            }
+        }
+        f
+    }), |f: &synth::SynthFont, s| test_synth(f, s, false));
     ctx.finish();
+}
+
+fn test_synth(f: &synth::SynthFont, stats: &Stats, skip_known: bool) -> CaseResult {
+    let built = synth::build(f);
+    let dir = verif_dir().join("harness/target/tmp/c03-synth");
+    let _ = std::fs::create_dir_all(&dir);
+    let path = dir.join(format!("{}-{:016x}.ttf", std::process::id(), hash_json(f)));
+    std::fs::write(&path, &built.bytes).map_err(|e| Fail::new("c03|harness|tmp-write", e.to_string()))?;
+    let r = compare_synth(&path, f, &built, stats, skip_known);
+    let _ = std::fs::remove_file(&path);
+    r
+}
+
+fn compare_synth(path: &std::path::Path, f: &synth::SynthFont, built: &synth::Built, stats: &Stats, skip_known: bool) -> CaseResult {
+    let Some(mut font) = Font::new(path) else {
+        stats.class("synthetic_font_not_loadable");
+        return Ok(());
+    };
+    let h = hash_json(f);
+    // sizes: 5 seeded sizes in 7..=64 plus one large
+    let sizes: Vec<u32> = (0..5).map(|k| 7 + (mix(h, k) % 58) as u32).chain([96 + (mix(h, 9) % 300) as u32, 0]).collect();
+    let mut compared = 0u64;
+    for mode in 0u8..=5 {
+        for &ppem in &sizes {
+            if ppem == 0 && mode != 0 {
+                continue;
+            }
+            let opts = InstanceOptions::new(0, ppem, &[], mode_of(mode));
+            let Some((mut ft, mut sk)) = font.instantiate(&opts) else {
+                stats.class("synthetic_no_instance");
+                continue;
+            };
+            for gid in 0..built.num_glyphs {
+                let g = GlyphId::from(gid);
+                let feat = built.feature.get(gid as usize).copied().unwrap_or(0);
+                if skip_known && feat != 0 {
+                    // listed discrepancy (component offset flags + transform): excluded here, reproduced by `synthetic-known`
+                    stats.class("excluded_known");
+                    continue;
+                }
+                let mut fo: Vec<PathElement> = vec![];
+                let mut so: Vec<PathElement> = vec![];
+                let fa = ft.outline(g, &mut RegularizingPen::new(&mut fo, ppem != 0));
+                let sa = sk.outline(g, &mut RegularizingPen::new(&mut so, ppem != 0));
+                let Some(fa) = fa else {
+                    stats.class("synthetic_freetype_load_error");
+                    continue;
+                };
+                compared += 1;
+                let is_comp = gid as usize > f.simple.len();
+                let what = if is_comp { "composite" } else { "simple" };
+                let mut why = None;
+                match sa {
+                    Err(e) => why = Some(format!("skrifa error {e} where FreeType produced an outline")),
+                    Ok(sa) => {
+                        if fo != so {
+                            let k = fo.iter().zip(so.iter()).position(|(a, b)| a != b).unwrap_or(fo.len().min(so.len()));
+                            why = Some(format!("paths differ at command {k}: FreeType {:?} vs skrifa {:?}", fo.get(k), so.get(k)));
+                        } else if let Some(sa) = sa {
+                            if sa != fa {
+                                why = Some(format!("advance width differs: FreeType {fa} vs skrifa {sa}"));
+                            }
+                        }
+                    }
+                }
+                if let Some(w) = why {
+                    return Err(Fail::new(
+                        format!("c03|synthetic|{}|{}|{}", mode_kind(mode), what, ["plain", "scaled-offset-with-transform", "both-offset-flags-with-transform"][feat as usize % 3]),
+                        format!("generated font, glyph {gid} ({what}), mode {:?}, ppem {ppem}: {w}", mode_of(mode)),
+                    ));
+                }
+            }
+        }
+    }
+    stats.evals(compared);
+    stats.class_n("synthetic_glyph_comparisons", compared);
+    if built.has_point_anchor_nested {
+        stats.class("synthetic_nested_point_anchor");
+    }
+    if !f.composites.is_empty() {
+        stats.class("synthetic_with_composites");
+    }
+    stats.nontrivial(h);
+    Ok(())
 }
